@@ -45,6 +45,17 @@ for c in man["checks"]:
     cov = ev.get("coverage", {})
     out.append("| %s | %s | %s | %s | %s | %s | %s |" % (pid, c["level_claimed"]["category"], tn, ", ".join(cf), cov.get("evaluations", "?"), cov.get("distinct_nontrivial", "?"), ev.get("wall_s", "?")))
 out.append("")
+out.append("What each check generates and what it counts as non-trivial (the `rule` field of its evidence file):\n")
+for c in man["checks"]:
+    pid = c["property_id"]
+    try:
+        ev = json.load(open(os.path.join(V, "evidence", pid + ".json")))
+        rule = ev.get("coverage", {}).get("rule", "")
+    except Exception:
+        rule = ""
+    if rule:
+        out.append("* **%s** - %s" % (pid, rule.replace("\n", " ")))
+out.append("")
 if man.get("not_applicable"):
     out.append("Not claimed at present: " + "; ".join("%s (%s)" % (n["property_id"], n["reason"]) for n in man["not_applicable"]) + "\n")
 out.append("## 6. What the checks found in agievich/bee2\n")
